@@ -2,19 +2,19 @@ NOTES = "Property-based testing / fuzzing family only. Every check is ./check <i
 NOT_APPLICABLE = {}
 CHECKS = {
  "C01": {
-  "technique": "property-based round-trip testing (proptest structured generation + shrinking) against a strict projection oracle",
+  "technique": "property-based round-trip testing (proptest structured generation + shrinking) against a strict projection oracle; the thorough tier adds a coverage-guided libFuzzer stage (cargo-fuzz) with the same oracle inside the target",
   "level": "Generated-input search: well-formed values of all 18 kinds are encoded to Zinc and decoded again; the result must be strictly equal (field-by-field projection, not libhaystack's ==). Held on everything explored; no absence claim.",
   "note": "Trusts chrono/chrono-tz for zone rules and Rust's f64 formatting/parsing; values are built through public constructors.",
   "ref": "DESIGN.md section 3 C01; section 9 (what the build added, findings, sensitivity rounds 9.7-9.12, appendix E)",
  },
  "C02": {
-  "technique": "property-based round-trip testing (proptest) through three serde_json routes and typed T->json->T, strict projection oracle",
+  "technique": "property-based round-trip testing (proptest) through three serde_json routes and typed T->json->T, strict projection oracle; the thorough tier adds a coverage-guided libFuzzer stage (cargo-fuzz) with the same oracle inside the target",
   "level": "Generated-input search: well-formed values are serialised to Hayson and deserialised through to_string/from_str, to_vec/from_slice, to_value/from_value and the typed Serialize+Deserialize impls; result must be strictly equal. Held on everything explored.",
   "note": "Trusts serde_json for JSON syntax and chrono-tz for zone rules. A grid meta tag named 'ver' is excluded (reserved by the Hayson grid encoding).",
   "ref": "DESIGN.md section 3 C02; section 9 (what the build added, findings, sensitivity rounds 9.7-9.12, appendix E)",
  },
  "C10": {
-  "technique": "property-based testing (proptest): any constructible value, deep spines and decoder images through every encoder under catch_unwind",
+  "technique": "property-based testing (proptest): any constructible value, deep spines and decoder images through every encoder under catch_unwind; the thorough tier adds a coverage-guided libFuzzer stage (cargo-fuzz) with the same oracle inside the target",
   "level": "Generated-input search over ill-formed and well-formed values (depth to 64), the image of each decoder offered to the other encoder, and foreign Hayson documents; oracle: no encoder / Display / dis call panics. Held on everything explored.",
   "note": "Instants within 14 h of chrono's limits are excluded from generation (open known finding F12b, replayed on every run).",
   "ref": "DESIGN.md section 3 C10; section 9 (what the build added, findings, sensitivity rounds 9.7-9.12, appendix E)",
@@ -32,13 +32,13 @@ CHECKS = {
   "ref": "DESIGN.md section 3 C19; section 9 (what the build added, findings, sensitivity rounds 9.7-9.12, appendix E)",
  },
  "C03": {
-  "technique": "property-based testing + mutation/grammar-based fuzzing (proptest) with a deterministic fuel oracle for non-termination and child-process containment for stack exhaustion",
+  "technique": "property-based testing + mutation/grammar-based fuzzing (proptest) with a deterministic fuel oracle for non-termination and child-process containment for stack exhaustion; the thorough tier adds a coverage-guided libFuzzer stage (cargo-fuzz) with the same oracle inside the target",
   "level": "Generated-input search: arbitrary bytes, grammar-generated documents, every prefix, mutants, damaged grids, corpus windows, chunked/faulting readers, and a nesting ladder to 131072 in child processes; oracle: every decoder entry point returns Ok or Err (no panic, no fuel exhaustion, no abort, no confirmed hang). Held on everything explored.",
   "note": "Non-termination is detected by fuel ticks at Scanner::read/Lexer::read (verif-hooks); a loop that never reads would only be seen by the 30 s child-process watchdog of the ladder. Stack limits: the environment's main-thread stack and a 2 MiB thread.",
   "ref": "DESIGN.md section 3 C03; section 9 (what the build added, findings, sensitivity rounds 9.7-9.12, appendix E)",
  },
  "C04": {
-  "technique": "differential property-based testing (proptest) against an independent reference Zinc writer and strict grammar reader written from the specification",
+  "technique": "differential property-based testing (proptest) against an independent reference Zinc writer and strict grammar reader written from the specification; the thorough tier adds a coverage-guided libFuzzer stage (cargo-fuzz) with the same oracle inside the target",
   "level": "Direction A: libhaystack's output must be a sentence of the grammar (reference reader) denoting the value. Direction B: every legal spelling produced by the reference writer must decode to the value. The reference pair is self-tested first. Held on everything explored.",
   "note": "Reference = DESIGN.md appendix A; spellings the specification leaves open are never written. Number denotation by Rust's correctly rounded parse; units from unit-gen/units.txt; zones from chrono-tz.",
   "ref": "DESIGN.md section 3 C04; section 9 (what the build added, findings, sensitivity rounds 9.7-9.12, appendix E)",
@@ -56,7 +56,7 @@ CHECKS = {
   "ref": "DESIGN.md section 3 C06; section 9 (what the build added, findings, sensitivity rounds 9.7-9.12, appendix E)",
  },
  "C11": {
-  "technique": "metamorphic property-based testing (proptest): decode-encode-decode fixed point, chunked-reader vs buffer differential, byte-counting reader for the laziness bound",
+  "technique": "metamorphic property-based testing (proptest): decode-encode-decode fixed point, chunked-reader vs buffer differential, byte-counting reader for the laziness bound; the thorough tier adds a coverage-guided libFuzzer stage (cargo-fuzz) with the same oracle inside the target",
   "level": "Generated accepted texts (random legal spellings, accepted mutants, corpus files) must reach a fixed point after one normalisation; reader decoding with generated chunk/Interrupted schedules must equal buffer decoding and the lazy iterator must yield parse_grid's rows; each row must be handed out before more than (end of first token after the row + 16 bytes) were consumed. Held on everything explored.",
   "note": "Row offsets are known because the harness assembles the grid text row by row. The 16 byte slack is the scanner's documented peek-ahead for number/date/time disambiguation.",
   "ref": "DESIGN.md section 3 C11; section 9 (what the build added, findings, sensitivity rounds 9.7-9.12, appendix E)",
@@ -86,7 +86,7 @@ CHECKS = {
   "ref": "DESIGN.md section 3 C08; section 9 (what the build added, findings, sensitivity rounds 9.7-9.12, appendix E)",
  },
  "C09": {
-  "technique": "fuzzing by generation and mutation (proptest) with fuel oracle, child-process paren-depth ladder, and a call-budget resolver as deterministic non-termination oracle for evaluation",
+  "technique": "fuzzing by generation and mutation (proptest) with fuel oracle, child-process paren-depth ladder, and a call-budget resolver as deterministic non-termination oracle for evaluation; the thorough tier adds a coverage-guided libFuzzer stage (cargo-fuzz) with the same oracle inside the target",
   "level": "Arbitrary bytes, operator soup, valid filters, every prefix, mutants, ref-chasing filters; paren ladder to 131072 in child processes (also through the C entry point); every parsed filter is printed and evaluated over cyclic ref graphs against the empty and the real defs namespace. Held on everything explored.",
   "note": "Non-termination of evaluation is detected through the resolver's call budget (20000 calls), parse loops through fuel ticks in the lexers.",
   "ref": "DESIGN.md section 3 C09; section 9 (what the build added, findings, sensitivity rounds 9.7-9.12, appendix E)",
